@@ -146,6 +146,17 @@ func runC19(r *Run) {
 			case "set":
 				sec.Data = map[string][]byte{"client-secret": []byte(val), "unrelated": []byte("x")}
 				lk = "v" + hx(val)
+				// metadata and flags of the Secret that have nothing to do with its value: none of them may decide whether
+				// the value reaches the filters
+				switch r.Rng.Intn(4) {
+				case 0:
+					yes := true
+					sec.Immutable = &yes
+					r.Dist["secret:immutable"]++
+				case 1:
+					sec.Labels, sec.Annotations = map[string]string{"app": "authservice"}, map[string]string{"rotated-by": "operator"}
+					sec.Type = corev1.SecretTypeOpaque
+				}
 			case "empty":
 				sec.Data = map[string][]byte{"client-secret": {}}
 				lk = "v" + hx("")
